@@ -152,7 +152,7 @@ func (e *Encoder) writeObject(data interface{}) (int, error) {
 		// that key a map or slice type of the same name written afterwards would be taken for a typed one)
 		clsName = typ.Name()
 	}
-	length, ok := e.existClassDef(clsName)
+	length, ok := e.existClassDef(clsName, typ)
 	if !ok {
 		length, _ = e.writeClsDef(typ, clsName)
 	}
@@ -186,12 +186,15 @@ func (e *Encoder) writeClsDef(typ reflect.Type, clsName string) (int, error) {
 	clsDef := ClassDef{clsName, fldList}
 	length := len(e.clsDefList)
 	e.clsDefList = append(e.clsDefList, clsDef)
+	e.clsDefTypes = append(e.clsDefTypes, typ)
 	return length, nil
 }
 
-func (e *Encoder) existClassDef(clsName string) (int, bool) {
+// a definition is the one to use only if it was written for this very type: two Go types may go by one
+// class name (same name in two packages or scopes, two entries of the name map), and their fields differ
+func (e *Encoder) existClassDef(clsName string, typ reflect.Type) (int, bool) {
 	for i := 0; i < len(e.clsDefList); i++ {
-		if strings.Compare(clsName, e.clsDefList[i].FullClassName) == 0 {
+		if strings.Compare(clsName, e.clsDefList[i].FullClassName) == 0 && e.clsDefTypes[i] == typ {
 			return i, true
 		}
 	}
